@@ -7,7 +7,7 @@ EXTENDS Integers, Sequences
 NoOKNames == {"a", "i", "mr", "pi", "qm", "qg", "v"}
 KindOfQuery(lname) == IF lname \in NoOKNames THEN "qnook" ELSE "qok"
 
-Faults == {"none", "wraise", "r1raise", "rNraise", "errline", "silent"}
+Faults == {"none", "wraise", "r1raise", "r2raise", "rNraise", "errline", "silent"}
 Empty == <<"empty">>
 
 \* what the board enqueues when request number n is written. An item is a line token
